@@ -9,4 +9,4 @@ if ! grep -q "PROPS\[\"$id\"\]" props/*.py 2>/dev/null; then python3 tools/extra
 git add -A
 git diff --name-only --diff-filter=U
 git -c user.email=b@x -c user.name=builder commit -qm "Merge b-$id" 2>&1 | tail -1
-python3 tools/mkmanifest.py
+python3 tools/mkmanifest.py; git add -A; git -c user.email=b@x -c user.name=builder commit -qm "manifest" 2>/dev/null
